@@ -77,6 +77,9 @@ func genSpec(t *rapid.T) *gen.TypeSpec {
 	case 2: // struct of small fields with arrays between them
 		s := &gen.TypeSpec{K: "struct"}
 		n := rapid.IntRange(2, 6).Draw(t, "nf")
+		if rapid.IntRange(0, 2).Draw(t, "widestruct") == 0 { // 9..16 names: the 16-bit bitmap key matcher
+			n = rapid.IntRange(9, 16).Draw(t, "nfwide")
+		}
 		for i := 0; i < n; i++ {
 			e := clone(rapid.SampledFrom(elemSpecs).Draw(t, "felem"))
 			if rapid.IntRange(0, 2).Draw(t, "asarray") == 0 {
